@@ -15,6 +15,14 @@ CHECKS = {
    "As C01: TLC computes the exact zero set of the residual at every breakpoint and the reading of the statement fixed in DESIGN 7/C06 (threshold runs collapse to their process-side end); the implementation-shaped first/last-zero row logic is model-checked against it and the real pinch temperatures (table level and serialised record) are compared on every enumerated case.",
    "As C01; the reading of 'threshold' and 'absent' is the one written down in DESIGN 7/C06.",
    "TLA+ spec + TLC exhaustive model check; TLC-exported cases replayed into the implementation"),
+ "C07": ("model_checking", "7/C07",
+   "spec/Pockets.tla models the pocket sweep as a multi-step machine (one action per loop iteration, the code's own indices and loop counter, row insertion inside the step); TLC runs it on every GCC shape of <=6 rows (quick) / 7-8 rows (thorough) and checks equality AS FUNCTIONS with the greatest monotone minorant, the end values and the load-profile clauses; every shape is replayed through get_GCC_without_pockets and the profile split under two/three embeddings.",
+   "Shapes on an integer lattice; bounded rows/levels (the smallest known counterexamples need 5 and 7 rows, both inside the bounds).",
+   "TLA+ spec + TLC exhaustive model check; TLC-exported cases replayed into the implementation"),
+ "C08": ("model_checking", "7/C08",
+   "spec/ProblemTable.tla transcribes insert_temperature_interval helper by helper; TLC explores every small table x every request sequence (unsorted, duplicates, existing rows, above/below/inside, several per interval) x histories of calls and checks same-curves, ordering, dT/dH rules, return count and idempotence; every explored call is replayed on a real ProblemTable (all three CP/dH pairs, populated and NaN curve columns) under three embeddings incl. near-duplicate requests.",
+   "One representative column per column class; tables start consistent with first-row CP 0 (as every pipeline table).",
+   "TLA+ spec + TLC exhaustive model check; TLC-exported cases replayed into the implementation"),
 }
 NOT_YET = {}
 
